@@ -379,6 +379,38 @@ def _agg_fields(b, adt_path):
     return out
 
 
+def _agg_fields_through_helpers(f, b, adt_path, depth=0):
+    """struct literals of adt_path built by b itself or by a crate-local builder it calls (the helper's parameters replaced by the
+    caller's argument expressions), so that `Self::from_raw(buf, index, size)`-style constructors are seen through"""
+    own = _agg_fields(b, adt_path)
+    if own or depth >= 2:
+        return own
+    out = []
+    for bi, t in b.calls():
+        c = t['callee']
+        if not c.get('local'):
+            continue
+        d = callee_def_(t)
+        hb = f.generic_body(d) if d else None
+        if hb is None:
+            continue
+        hbody = Body(hb)
+        inner = _agg_fields_through_helpers(f, hbody, adt_path, depth + 1)
+        if not inner:
+            continue
+        args = [b.tree_of_operand(a) for a in t['args']]
+
+        def sub(x):
+            if isinstance(x, tuple):
+                if x and x[0] == 'arg' and isinstance(x[1], int) and 1 <= x[1] <= len(args):
+                    return args[x[1] - 1]
+                return tuple(sub(y) for y in x)
+            return x
+        for fields, line in inner:
+            out.append(({k: sub(v) for k, v in fields.items()}, b.term_line(bi)))
+    return out
+
+
 def _subst(t, pat, token):
     """replace every occurrence of subtree `pat` (modulo refs/derefs/lossless int casts and call sites) by token"""
     n = _canon(t)
@@ -423,7 +455,7 @@ def s03_sibling_constructors(ctx):
         ctors.append((fp.rsplit('::', 1)[-1], Body(gb)))
     nlit = 0
     for name, b in ctors:
-        for fields, line in _agg_fields(b, W):
+        for fields, line in _agg_fields_through_helpers(f, b, W):
             nlit += 1
             key = 'Window|%s' % name
             r.inst(key)
@@ -495,7 +527,7 @@ def s03_sibling_constructors(ctx):
             smm_ctors.append(('deserialize', m.body(m.impl_fn_path(i, 'deserialize'), prefer_mono=False), 'len'))
     canon_forms = {}
     for name, b, mode in smm_ctors:
-        lits = _agg_fields(b, SM)
+        lits = _agg_fields_through_helpers(f, b, SM)
         key = 'SMM|%s' % name
         r.inst(key)
         if len(lits) != 1:
